@@ -395,3 +395,211 @@ def run_source_check_merge(pid, tier, t0, items, rule, extra, rep0, bad0):
 import os  # noqa: E402
 
 CHECKS["C03"] = check_c03
+
+
+# ---------------------------------------------------------------------------------------
+# C12 constexpr
+# ---------------------------------------------------------------------------------------
+CX_TIMEOUT = "Timeout during evaluating constexpr"
+CX_TEMPLATES = {
+    "k1": ("def k1(xa, xb):\n    return xa * 256 + xb\n", ["k1(3, 4)", "k1(0, 7)", "k1(12, 255)"]),
+    "k2": ("def k2(xa):\n    if xa > 2:\n        return xa * 2\n    return xa - 1\n", ["k2(5)", "k2(2)", "k2(0)"]),
+    "k3": ("def k3(xn):\n    acc = 0\n    for ii in range(xn):\n        acc += ii * ii\n    return acc\n", ["k3(4)", "k3(0)", "k3(6)"]),
+    "k4": ("def k4(xa, xb):\n    return (xa << 4) | (xb & 15)\n", ["k4(3, 21)", "k4(1, 0)"]),
+    "k5": ("def k1(xa, xb):\n    return xa * 256 + xb\n@constexpr\ndef k5(xa):\n    return k1(xa, 3) + 1\n", ["k5(2)", "k5(7)"]),
+    "k6": ("def k6(xa):\n    return xa / 4 + 0.5\n", ["k6(3)", "k6(8)"]),
+    "k7": ("def k7(xa, xb):\n    return xa > xb\n", ["k7(3, 2)", "k7(1, 2)"]),
+    "k8": ("def k8(xa):\n    nn = 0\n    while True:\n        nn = nn + 1\n        if nn * nn > xa:\n            break\n    return nn\n", ["k8(10)", "k8(0)"]),
+    "k9": ("def k9(xa):\n    return (xa * 7) // 2 + xa % 3\n", ["k9(5)", "k9(8)"]),
+}
+
+
+def cx_programs():
+    """template x call position; small values (everything fits the source machine's numbers)"""
+    H = corpus.HEADER
+    out = []
+    for tn, (tdef, calls) in sorted(CX_TEMPLATES.items()):
+        d = "@constexpr\n" + tdef
+        for ci, K in enumerate(calls):
+            base = "%s_%d" % (tn, ci)
+            pos = {
+                "stmt": H + d + "while True:\n    d0.Setting = %s\n    yield_()\n" % K,
+                "operand": H + d + "while True:\n    va = d1.Setting\n    d0.Setting = va + %s * 2\n    yield_()\n" % K,
+                "argument": H + d + "def fa(xa):\n    d2.Setting = xa\n    return xa + 1\nwhile True:\n    d0.Setting = fa(%s) + fa(d1.Setting)\n    yield_()\n" % K,
+                "in_function": H + d + "def fa(xa):\n    return xa + %s\nwhile True:\n    d0.Setting = fa(d1.Setting) + fa(1)\n    yield_()\n" % K,
+                "in_inlined": H + d + "def fa(xa):\n    return xa - %s\nwhile True:\n    d0.Setting = fa(d1.Setting)\n    yield_()\n" % K,
+                "condition": H + d + "while True:\n    if d1.Setting > %s:\n        d0.Setting = 1\n    else:\n        d0.Setting = 2\n    yield_()\n" % K,
+                "assigned": H + d + "kv = %s\nwhile True:\n    d0.Setting = kv + d1.Setting\n    yield_()\n" % K,
+            }
+            if ci == 0:
+                # defined in a library module: called from the main file (qualified) / from inside the library itself
+                pos["library"] = {"": H + "from library import ml\nwhile True:\n    d0.Setting = ml.twice(d1.Setting) + ml.%s\n    yield_()\n" % K,
+                                  "ml": H + d.replace("k1(xa, 3)", "k1(xa, 3)") + "def twice(xa):\n    return xa * 2 + 1\n"}
+                if tn == "k1":
+                    pos["libinner"] = {"": H + "from library import ml\nwhile True:\n    d0.Setting = ml.twice(d1.Setting) + ml.twice(1)\n    yield_()\n",
+                                       "ml": H + d + "def twice(xa):\n    return xa * 2 + %s\n" % K}
+            for pn, src in pos.items():
+                out.append(("cx_%s_%s" % (base, pn), src))
+    # positions that need a small non-negative integer
+    d3 = "@constexpr\n" + CX_TEMPLATES["k8"][0]
+    out.append(("cx_k8_range_bound", H + d3 + "while True:\n    for idx in range(k8(5)):\n        d0.Setting = idx\n    yield_()\n"))
+    out.append(("cx_k8_list_index", H + d3 + "vals = [4, 8, 15, 16, 23]\nwhile True:\n    d0.Setting = vals[k8(5)] + d1.Setting\n    yield_()\n"))
+    out.append(("cx_k8_stack_address", H + d3 + "while True:\n    stack[k8(10)] = d1.Setting\n    d0.Setting = stack[k8(10)] + 1\n    yield_()\n"))
+    return out
+
+
+WIDE = [  # (name, definition, call, python expression of the expected value) - results beyond the source machine's numbers: oracle=python
+    ("wide_hash_shift", "def kw(name, count):\n    return HASH(name) << 16 | count << 8 | 0x02\n", 'kw("ItemPlasticSheets", 10)'),
+    ("wide_hash_str", "def kh(name):\n    return HASH(name)\n", 'kh("StructureFurnace")'),
+    ("wide_pow", "def kp(xa):\n    return 3 ** xa\n", "kp(30)"),
+    ("wide_hash_nonascii", "def kh(name):\n    return HASH(name) + 1\n", 'kh("Küche")'),
+    ("wide_float", "def kf(xa):\n    return xa / 3\n", "kf(10)"),
+    ("wide_neg", "def kn(xa):\n    return -(xa << 40) - 1\n", "kn(5)"),
+]
+
+
+def python_value(defn, call):
+    import zlib
+
+    def HASH(s):
+        v = zlib.crc32(s.encode("utf-8")) & 0xFFFFFFFF
+        return v - (1 << 32) if v & 0x80000000 else v
+
+    env = {"HASH": HASH}
+    exec(defn, env)
+    return eval(call, env)
+
+
+def compile_retry(jobs, tries=4):
+    """compile; a job whose result says the helper process timed out (machine load) is tried again, alone"""
+    res = cw.compile_many(jobs)
+    for k, r in enumerate(res):
+        t = 0
+        while t < tries and isinstance(r["result"], dict) and CX_TIMEOUT in json.dumps(r["result"]):
+            time.sleep(0.3)
+            r = cw.compile_many([jobs[k]])[0]
+            res[k] = r
+            t += 1
+    return res
+
+
+def check_c12(tier, t0):
+    import checks_text as CT
+
+    rep = Reporter("C12")
+    progs = cx_programs()
+    if tier == "quick":
+        import random
+        rnd = random.Random(seed() + 12)
+        keep = {n for n, _ in progs if n.endswith(("_0_stmt", "library", "libinner")) or "k8_" in n}
+        rest = [p for p in progs if p[0] not in keep]
+        rnd.shuffle(rest)
+        progs = [p for p in progs if p[0] in keep] + rest[:45]
+    vecs = [cw.REF, cw.opts(inline_functions=True), cw.opts(inline_functions=True, remove_labels=True, compact=True)]
+    conv, outside = [], {}
+    for n, s in progs:
+        try:
+            a, sh = pysrc.convert(s)
+            conv.append((n, s, a))
+        except pysrc.Outside as e:
+            outside[n] = str(e)
+    if len(conv) < 20:
+        raise MachineryError("constexpr family outside the converter: %s" % list(outside.items())[:3])
+    jobs = [{"src": s, "options": v} for n, s, a in conv for v in vecs]
+    res = compile_retry(jobs)
+    items = []
+    k = 0
+    undecided = 0
+    for n, s, a in conv:
+        for v in vecs:
+            r = res[k]
+            k += 1
+            tag = cw.vec_name(v)
+            if r["raised"]:
+                raise MachineryError("compile_code raised for %s: %s" % (n, r["raised"]))
+            code = CL.code_of(r)
+            if code is None:
+                if CX_TIMEOUT in json.dumps(r["result"]):
+                    undecided += 1
+                    continue
+                rep.violation([n, n + "@" + tag], "CONSTEXPR_PROGRAM_REJECTED", {"property": "C12", "case": n, "variant": tag, "source": s, "result": r["result"]},
+                              "case=%s variant=%s rejected: %s" % (n, tag, str(r["result"])[:120]))
+                continue
+            # the decorated function itself emits no code
+            pre, _ = CL.h1_streams(r)
+            for fname, fi in (pre["functions"].items() if pre else []):
+                if fi["is_constexpr"] and (fi["emitted"] or re.search(r"^\s*%s:" % re.escape(fi["label"]), code, re.M)):
+                    rep.violation([n, n + "@" + tag], "CONSTEXPR_FUNCTION_EMITS_CODE", {"property": "C12", "case": n, "variant": tag, "source": s, "code": code},
+                                  "case=%s variant=%s the constexpr function %s emitted code" % (n, tag, fname))
+            pb = ic10load.load(code)
+            items.append({"name": n, "tag": tag, "src": s, "b_text": code, "shapes": [],
+                          "case": {"ast": a, "pb": pb, "dom": equiv.pick_dom(pb, pb), "maxn": 3, "fuel": 4096},
+                          "sample": {"case": n, "variant": tag, "source": s, "emitted": code}})
+    # forbidden bodies must be rejected
+    forb = []
+    for word, body in (("open", "return len(open('/etc/hostname').read())"), ("eval", "return eval('1 + 1')"), ("exec", "exec('zz = 1')\n    return 1")):
+        forb.append((word, corpus.HEADER + "@constexpr\ndef kz(xa):\n    %s\nd0.Setting = kz(1)\n" % body))
+    fres = compile_retry([{"src": s, "options": cw.REF} for _, s in forb])
+    for (word, s), r in zip(forb, fres):
+        if CL.code_of(r) is not None:
+            rep.violation(["forbidden:" + word], "FORBIDDEN_BODY_ACCEPTED", {"property": "C12", "word": word, "source": s, "result": r["result"]},
+                          "a constexpr function containing %s was compiled" % word)
+    # results beyond the source machine's numbers: Python is the oracle for the value, TLC (NumFmt.tla) reads the literal back
+    wide_cases, wide_meta = [], []
+    wjobs = []
+    for n, d, call in WIDE:
+        for form in ("d0.Setting = %s\n", "va = d1.Setting\nd0.Setting = %s\nd2.Setting = va\n"):
+            wjobs.append((n, d, call, corpus.HEADER + "@constexpr\n" + d + form % call))
+    wres = compile_retry([{"src": s, "options": v} for n, d, call, s in wjobs for v in (cw.REF, cw.opts(compact=True))])
+    k = 0
+    for n, d, call, s in wjobs:
+        for v in (cw.REF, cw.opts(compact=True)):
+            r = wres[k]
+            k += 1
+            code = CL.code_of(r)
+            if code is None:
+                if CX_TIMEOUT in json.dumps(r["result"]):
+                    undecided += 1
+                    continue
+                rep.violation([n], "CONSTEXPR_PROGRAM_REJECTED", {"property": "C12", "case": n, "source": s, "result": r["result"]}, "case=%s rejected" % n)
+                continue
+            tok = ""
+            for l in code.split("\n"):
+                t = ic10load.tokenize(l)
+                if len(t) == 4 and t[0] == "s" and t[1] == "d0":
+                    tok = t[3]
+            if tok.startswith('HASH("'):
+                tok = str(ic10load.signed_crc32(tok[6:-2]))   # verbose spelling of the same number (C08 decides that equivalence)
+            val = python_value(d, call)
+            wide_cases.append({"tok": [ord(c) for c in tok], "val": CT.dec_of(val), "alt": CT.dec_of(float(val)), "int": isinstance(val, int)})
+            wide_meta.append((n, call, val, tok, s, code))
+    nwide = 0
+    if wide_cases:
+        mut = dict(wide_cases[0], tok=wide_cases[0]["tok"][:-1] + [57 if wide_cases[0]["tok"][-1] != 57 else 56])
+        rw = CT.tlc("C12_wide", "NumFmt", "SPECIFICATION SpecJudge\nCONSTANTS\n Mantissas <- Nothing\n Points <- Nothing\nCHECK_DEADLOCK FALSE\n",
+                    files={"cases.json": wide_cases + [mut]}, workers=4, timeout=900)
+        if not rw.ok:
+            raise MachineryError("NumFmt.tla (C12 wide values) failed:\n" + rw.out[-2000:])
+        tv = rw.verdicts()
+        if tv.get(len(wide_cases) + 1, set()) - {"reported"} == {"OK"}:
+            raise MachineryError("binding self-test failed: a corrupted constexpr literal was accepted")
+        for k2 in range(1, len(wide_cases) + 1):
+            for vd in tv.get(k2, set()) - {"reported"}:
+                nwide += 1
+                if vd != "OK":
+                    n, call, val, tok, s, code = wide_meta[k2 - 1]
+                    rep.violation([n], "CONSTEXPR_VALUE_DIFFERS", {"property": "C12", "case": n, "call": call, "python_value": repr(val), "emitted_token": tok, "source": s, "code": code, "verdict": vd},
+                                  "constexpr call %s: Python gives %r, emitted `%s` (%s)" % (call, val, tok, vd))
+    rule = ("constexpr templates (arithmetic, branches, loops, shifts/bitwise, nested constexpr calls, floats, comparisons, while/break, floor division) x "
+            "argument values x call positions (statement, operand, argument, body of an out-of-line and of an inlined function, condition, "
+            "single-assignment variable, library module, range bound, list index, stack address) x 3 option vectors; the source machine calls the "
+            "function at run time (ordinary evaluation), the emitted text holds the literal: equal effects for all inputs; plus: decorated function "
+            "emits no code (hook H1 + labels), open/eval/exec bodies rejected, wide results (48-bit hash packing, powers, non-ASCII hash) read back by "
+            "NumFmt.tla against Python's value (oracle=python)")
+    extra = {"outside_dialect": outside, "undecided_helper_timeout_under_load": undecided, "wide_values_oracle_python": nwide, "forbidden_bodies_checked": len(forb)}
+    return run_source_check_merge("C12", tier, t0, items, rule, extra, rep, len(rep.violations))
+
+
+import re  # noqa: E402
+
+CHECKS["C12"] = check_c12
